@@ -25,8 +25,10 @@ import (
 // (with scaling on: the fourth of four such passes — scaled mins are brought up to date lazily, one
 // quota per RefreshRuntime).
 // Ops that GroupQuotaManager's callers never issue are skipped here and in the model alike:
-// creating under a parent that is not a live parent quota, changing parent/isParent/allowLent of
-// a live quota, deleting a quota that still has children, pods in a parent quota.
+// creating under a parent that is not a live parent quota, changing the parent of a live quota (its
+// labels are then ignored too), flipping is-parent on a quota with children or pods, deleting a quota
+// that still has children, pods in a parent quota.  A label edit (allow-lent / is-parent, same parent)
+// takes the resetQuotaNoLock path.
 func vtC02MgrName(k int) string {
 	if k == 0 {
 		return extension.RootQuotaName
@@ -80,6 +82,19 @@ func vtC02MgrExec(in []int64) []int64 {
 				pm, pl := meta[m.parent]
 				if k == 0 || (m.parent != 0 && !(pl && pm.isParent)) {
 					break
+				}
+				meta[k] = m
+			} else if int(rec[2]) == m.parent {
+				// a label edit (same parent): allow-lent freely, is-parent only on a quota without children and pods
+				m.lend = rec[3]&2 != 0
+				quiet := !children(k)
+				for key := range pods {
+					if key[0] == k {
+						quiet = false
+					}
+				}
+				if quiet {
+					m.isParent = rec[3]&1 != 0
 				}
 				meta[k] = m
 			}
@@ -345,6 +360,19 @@ func vtC02MgrGen(r *rand.Rand, i int) (string, []int64) {
 					pod(k, 0, v+q())
 				}
 				total()
+				continue
+			}
+		}
+		if r.Intn(7) == 0 { // a label edit: allow-lent of any quota, or is-parent of a quiet one -> tree reset
+			k := pickLive(false)
+			if cur[k].live {
+				quiet := !hasChildren(k) && cur[k].pod[0] == 0 && cur[k].pod[1] == 0
+				if quiet && r.Intn(2) == 0 {
+					plan[k].isParent = !plan[k].isParent
+				} else {
+					plan[k].lend = !plan[k].lend
+				}
+				update(k, cur[k].max, cur[k].min, cur[k].w)
 				continue
 			}
 		}
